@@ -15,13 +15,21 @@ RULE = ("real runs without impedance: GridSize in {48,64,96,128}, StepsPerTs 50.
         "and the run spans >= 3 synchrotron periods; distinct = case hash")
 ASSUMPTIONS = ["'converges' is decided after a run length fixed in units of the configured damping time (5), not asymptotically",
                "tau_disc = 0.5*delta^2 + 0.003 (3-point stencil), 0.1*delta^2 + 0.003 (4-point): calibrated, observed 0.27*delta^2 and <= 0.0026"]
-TOLERANCES = {"equilibrium": "tau_disc(n, stencil) + e1", "after_2_damping_times": "|sigma(2 t_d) - sigma(end)| <= 1.6*|z^2-1|/2*exp(-4) + 0.004",
+TOLERANCES = {"equilibrium": "tau_disc(n, stencil) + e1", "after_2_damping_times": "|sigma(2 t_d) - sigma(end)| <= 1.6/(1-e1/(2 theta))*|z^2-1|/2*exp(-4) + 0.004",
               "stationarity_last_20pct": "tau_disc/2 + 3e-4", "monotone_ripple": "sum of the variances may move against the trend by 1.4*theta relative per record (kick-drift splitting)"}
 
 
 def tau_disc(n, deriv, pq=12.0):
     delta = pq / (n - 1)
     return (0.5 if deriv == 3 else 0.1) * delta ** 2 + 0.003
+
+
+def under(e1, theta):
+    """Damping acts on the energy only; the widths follow exp(-2t/t_d) exactly only for weak damping (e1 << rotation angle
+    per step).  For the damped oscillator q' = w p, p' = -w q - 2a p with a/w = e1/(2 theta) the second moments carry an
+    oscillating part whose envelope exceeds the averaged decay by up to 1/(1 - a/w)."""
+    r = min(e1 / (2 * theta), 0.9)
+    return 1.0 / (1.0 - r)
 
 
 def run_one(o, wd, name):
@@ -68,7 +76,7 @@ def run_case(case):
         # 2. after two damping times the remaining excess is (z^2-1)/2 * exp(-4); a rate that is too slow leaves more
         i2 = int(np.argmin(np.abs(t - 2 * td * fs)))
         # measured against the run's own end value, so that the discretisation bias of the grid cancels
-        allow2 = 1.6 * abs(z * z - 1) / 2 * np.exp(-4) + 0.004 + 0.6 * theta * abs(z - 1) * np.exp(-2)
+        allow2 = 1.6 * under(e1, theta) * abs(z * z - 1) / 2 * np.exp(-4) + 0.004 + 0.6 * theta * abs(z - 1) * np.exp(-2)
         dev2 = max(abs(sq[i2] - sq[-1]), abs(sp[i2] - sp[-1]))
         met["dev2_over_allow"] = dev2 / allow2
         if dev2 > allow2:
@@ -122,8 +130,10 @@ def cases(draw, fast=True):
     steps = draw(st.integers(50, 400))
     lo = 1e-3 if fast else 2e-4
     # the decrement must dominate the grid's own numerical dissipation per step (grows with the cell size and the rotation
-    # angle per step; calibration scan: n=48 needs e1*steps/100 >= 1e-3, n=64 >= 4e-4, n>=96 fine down to 2e-4)
-    cmin = {48: 1.2e-3, 64: 5e-4}.get(n, 2e-4)
+    # angle per step; calibration scan: n=48 needs e1*steps/100 >= 1e-3, n=64 >= 4e-4, n>=96 fine down to 2e-4; a thorough run found
+    # n=48, quadratic interpolation, e1*steps/100 = 1.24e-3 settling at 0.9892 from EVERY start (zoom 0.1..2), 1.1 x the
+    # allowance: the floors were raised to 2e-3 / 8e-4)
+    cmin = {48: 2e-3, 64: 8e-4}.get(n, 2e-4)
     lo = max(lo, cmin * 100.0 / steps)
     hi = min(2e-2, 0.35 * delta ** 2)
     lo = min(lo, hi)
@@ -199,7 +209,7 @@ def run_api(case):
             return Outcome(False, nontriv, cls, "operator level: after %d steps (5 damping times) widths %.5f / %.5f, expected 1 +- %.4f (n=%d stencil %d it=%d e1=%.3g zoom=%g shiftY=%g)" %
                            (nsteps, we[0], we[1], tau + e1, n, deriv, it, e1, z, sy), sig="c04:api:equilibrium", metrics=met)
         if w2 is not None:
-            allow2 = 1.6 * abs(z * z - 1) / 2 * np.exp(-4) + 0.004 + 0.6 * theta * abs(z - 1) * np.exp(-2)
+            allow2 = 1.6 * under(e1, theta) * abs(z * z - 1) / 2 * np.exp(-4) + 0.004 + 0.6 * theta * abs(z - 1) * np.exp(-2)
             dev2 = max(abs(w2[0] - we[0]), abs(w2[1] - we[1]))
             met["api_dev2_over_allow"] = dev2 / allow2
             if dev2 > allow2:
